@@ -83,6 +83,8 @@ func runC01(c *Ctx) {
 	c.rule("R11", "every beat of the heartbeat (re)creates the heartbeat file: a creating write lies in the loop, so that a creation that failed once, or a file that vanished, is repaired one period later", 1)
 	c.rule("R12", "the instant written at a beat is read from the clock at that beat (time.Now() evaluated in the loop), not carried over or computed from the previous beat", 1)
 	c.heartBeatEveryBeat("R11", "R12")
+	c.rule("R13", "the heartbeat goroutine returns only where its context gate answered an error: a failed write does not end the heartbeat of a holder that is alive (the exit obligation of C17/S1)", 1)
+	c.heartBeatStopsOnlyWithItsContext("R13")
 
 	// R10: the verdict 'stale' (and with it the take-over of a lock) rests on listings and stats of the lock directory. A helper on
 	// that path that loses a failure — an error overwritten by the outcome of the next step, a failing side that returns
@@ -592,4 +594,35 @@ func (c *Ctx) lockWhoMayRelease(rule string) {
 		})
 	}
 
+}
+
+// heartBeatStopsOnlyWithItsContext (R13; the /exit obligation of C17/S1 evaluated for C01): "as long as the holder's
+// heartbeat keeps running" — it keeps running until the holder releases. Every return of the heartbeat goroutine lies where
+// its context gate answered an error: a beat whose write failed (a full disk for a moment, an I/O hiccup) is tried again one
+// period later, it does not end the heartbeat of a holder that is alive.
+func (c *Ctx) heartBeatStopsOnlyWithItsContext(rule string) {
+	hb := c.fnOpt(fsPkgRel, "heartBeat")
+	if hb == nil {
+		c.info(rule, "filesystem.heartBeat/absent", "-", "no heartBeat function (the heartbeat is written elsewhere)")
+		return
+	}
+	c.FuncsSeen[fname(hb)] = true
+	bad := ""
+	allInstrs(hb, func(in ssa.Instruction) {
+		r, ok := in.(*ssa.Return)
+		if !ok {
+			return
+		}
+		ctxErr := false
+		allInstrs(hb, func(j ssa.Instruction) {
+			if cl, ok := j.(*ssa.Call); ok && strings.HasSuffix(calleeFull(&cl.Call), "DetermineContextError") && onNonNilSide(cl, r) {
+				ctxErr = true
+			}
+		})
+		if !ctxErr {
+			bad = c.ipos(r)
+		}
+	})
+	c.check(bad == "", rule, fname(hb)+"/stops-only-with-its-context", c.pos(hb.Pos()), "every return of the heartbeat goroutine follows a context gate that answered an error",
+		"the heartbeat goroutine can return at "+bad+" although its context is still alive — after one failed write, say: the holder goes on believing it holds the lock, nothing refreshes the heartbeat any more, the lock goes stale after two periods and an override contender takes it over while the holder still holds")
 }
